@@ -40,6 +40,6 @@ class Authenticator(object):
             'ident': ident,
             'owner': get_key(ident, 'owner', ident),
             'secret': secret,
-            'subchans': get_key(ident, 'subchans', '').split(','),
-            'pubchans': get_key(ident, 'pubchans', '').split(','),
+            'subchans': [c for c in get_key(ident, 'subchans', '').split(',') if c],
+            'pubchans': [c for c in get_key(ident, 'pubchans', '').split(',') if c],
         }
